@@ -50,6 +50,7 @@ from mc.instrument import scratch_dir
 from mc.ref import c13_model as M
 from mc.ref import c13_build as B
 
+SIBLING_LABELS_DOC = ("A:d2:n1", "A:d2:n2", "B:d2:n1", "B:d2:n2", "B:d3:n1")
 ID = "C13"
 LEVEL = "exploration"
 DESIGN_REF = "DESIGN.md section 5, C13"
@@ -74,6 +75,10 @@ ASSUMPTIONS = [
     "without any static-context method takes part in the intersection, is not stated: both accepted",
     "what a consumer placed after an unresolvable key inside the same sequence holds is not stated: "
     "there only the causal (differential) law is judged",
+    "law 'siblings' (families " + ", ".join(SIBLING_LABELS_DOC) + "): deep copies of one element that was never put "
+    "into a sequence are independent elements (tests/core/test_static_context.py copies sequences the same "
+    "way); history: copies form the tree, then copies of the same templates form, per SetContext leaf, the "
+    "variant in which that leaf sets the unrelated key Kz; judged differentially against fresh builds only",
     "data elements pass every value on after writing its data under context.Kn (in place) if a dictionary is there; the run-time law uses two input values",
 ]
 NONTRIVIAL_FLOOR = {"quick": 20000, "thorough": 200000}
@@ -83,6 +88,9 @@ S_CORE = [["S", "Ka", 1], ["S", "Kb", ""], ["S", "Ka", "{{Kb}}_x"]]
 S_MORE = [["S", "Kn.a", 3], ["S", "Kb", None], ["S", "Kb", "{{Ka}}_x"], ["S", "Kn.b", "{{Kn.a}}_x"]]
 CONSUMER_VARIANTS = [["St"], ["U"], ["M", "Ka"], ["M", "Kb+Ka"], ["W", "Ka"], ["W", "Ka+Kb"], ["C", "Ka"],
                      ["C", "Kb+Ka"], ["M", "Kn.b+Kn.a"], ["W0", "Kb"]]
+
+# law 'siblings' (deep copies of one template element are independent) is judged in these families
+SIBLING_LABELS = SIBLING_LABELS_DOC
 
 # family W: branches a wide Split is made of, and what may stand before it
 W_POOL = [["t", []], ["t", [["S", "Ka", 1]]], ["t", [["S", "Kb", ""]]], ["t", [["S", "Ka", 1], ["S", "Kb", ""]]],
@@ -350,8 +358,64 @@ class Judge(object):
                 self.memo[key] = ("exc", type(e).__name__)
         return self.memo[key]
 
-    def judge(self, res, tree, directory):
+    def siblings(self, tree, main_obs, bad, res):
+        """Law 'siblings': elements that are deep copies of one never-threaded template element are
+        independent.  History: the templates are made; copies of them form *tree*; then, for every
+        SetContext leaf, copies of the same templates form the variant of *tree* in which that
+        SetContext sets the unrelated key Kz instead.  Every consumer of a variant must show what
+        it shows when the variant is built from fresh objects, and the consumers of the first copy,
+        looked at after all that, what they show in a fresh build of *tree* (*main_obs*)."""
+        cons = [(p, s) for p, s in M.leaves(tree) if s[0] in M.CONSUMERS]
+        sets = [p for p, s in M.leaves(tree) if s[0] == "S"]
+        if not cons or not sets:
+            return
+        try:
+            tmpl = B.templates(tree)
+            first = B.build(tree, tmpl)
+        except Exception as e:
+            bad("siblings", "raised " + type(e).__name__, "copies of fresh elements form the tree",
+                stage="first copy")
+            return
+
+        def look(b, p, s):
+            try:
+                return ("ok", B.observe_leaf(s, p, b))
+            except Exception as e:
+                return ("exc", type(e).__name__)
+
+        for sp in sets:
+            variant = copy.deepcopy(tree)
+            leaf = variant
+            for i in sp:
+                leaf = leaf[1] if leaf[0] == "bare" else leaf[1][i]
+            leaf[1] = "Kz"
+            res.count("sibling variants")
+            try:
+                fresh = B.build(variant)
+            except Exception:
+                continue
+            try:
+                sib = B.build(variant, tmpl)
+            except Exception as e:
+                bad("siblings", "raised " + type(e).__name__, "built as from fresh elements",
+                    stage="variant", variant=variant)
+                continue
+            for p, s in cons:
+                a, f = look(sib, p, s), look(fresh, p, s)
+                if a != f:
+                    bad("siblings", {"path": list(p), "copy_of_template": a, "fresh": f,
+                                     "variant": variant},
+                        "the same observation in both", consumer=s[0], stage="variant")
+        for (p, s), want in zip(cons, main_obs):
+            a = look(first, p, s)
+            if a != want:
+                bad("siblings", {"path": list(p), "first_copy_afterwards": a, "fresh": want},
+                    "the same observation in both", consumer=s[0], stage="first copy afterwards")
+
+    def judge(self, res, tree, directory, siblings=False):
         case = {"tree": tree}
+        if siblings:
+            case["siblings"] = True
         viol = []
 
         def bad(law, observed, expected, **cause):
@@ -397,6 +461,8 @@ class Judge(object):
                                    "prefix": M.prune(tree, path)},
                         "the same observation in both", consumer=spec[0], position=pos,
                         upstream_error=not definite)
+            if siblings:
+                self.siblings(tree, list(outcome), bad, res)
             # ---- nodes --------------------------------------------------------------------------
             for path, spec in M.nodes(tree):
                 if _has_err(fold.seen[path]):
@@ -462,7 +528,7 @@ def run_shard(p, tier):
             res.count("trees:" + label)
             last = None
             for concrete in assignments(family, tree):
-                last = j.judge(res, concrete, d)
+                last = j.judge(res, concrete, d, siblings=label in SIBLING_LABELS)
             if idx % 97 == p["mod"] % 97:
                 res.sample(last, 2)
     return res
@@ -471,7 +537,7 @@ def run_shard(p, tier):
 def replay(case):
     res = Result()
     with scratch_dir() as d:
-        Judge().judge(res, case["tree"], d)
+        Judge().judge(res, case["tree"], d, siblings=bool(case.get("siblings")))
     return result_violations(res)
 
 
@@ -482,7 +548,10 @@ LEVEL_TEXT = ("bounded exhaustive exploration of programs: every Sequence/Source
               "(thorough: 4) branches over a pool of 8 branch forms) is built from real lena objects "
               "and judged against a reference fold, against its own prefix-only reduction (causality), for "
               "the LenaKeyError contract and for run-time leaks; MakeFilename and UpdateContextFromStatic "
-              "are observed over a flow of values with and without run-time keys of their own")
+              "are observed over a flow of values with and without run-time keys of their own; in the families "
+              "of at most 2 leaves the consumers are also built as deep copies of common template elements "
+              "(siblings made from one template) in two different contexts one after the other and compared "
+              "with fresh builds")
 LEVEL_NOTE = ("holds for the enumerated grammar only; the reference fold is set-valued where the statement is "
               "silent (context-less branches in a Split, empty sub-dictionaries of an intersection); what a "
               "consumer holds after an unresolvable key is judged by the differential law only; for "
@@ -490,4 +559,5 @@ LEVEL_NOTE = ("holds for the enumerated grammar only; the reference fold is set-
               "sub-dictionary replaces / is merged into the static one) are accepted")
 TECHNIQUE = ("exhaustive enumeration of bounded program trees executed on the real code, judged by a "
              "reference fold (for MakeFilename: static fold joined with each value's run-time context) and by "
-             "a prefix-reduction differential")
+             "a prefix-reduction differential; a copy-of-template versus fresh-element differential over a "
+             "two-step history")
